@@ -34,6 +34,8 @@ pub enum Val {
     Printer { port: usize, mutex: usize, term: Option<char> },
     /// mutable table shared by reference (every operation on it is a scheduling point)
     Table(Arc<StdMutex<Vec<(Val, Val)>>>),
+    /// mutable vector shared by reference (every access is a scheduling point)
+    Vector(Arc<StdMutex<Vec<Val>>>),
 }
 
 #[derive(Debug)]
@@ -237,7 +239,8 @@ const PROCEDURES: &[&str] = &[
     "newline", "string-append", "number->string", "make-recursive-mutex", "lock-mutex", "unlock-mutex", "list", "cons",
     "car", "cdr", "null?", "reverse", "append", "length", "for-each", "eq?", "eqv?", "string=?", "string-null?",
     "string-length", "zero?", "1+", "1-", "force-output", "flush-all-ports", "string?", "apply", "string-join", "make-hash-table", "hash-set!", "hash-ref", "hash-remove!", "hash-count",
-    "current-thread", "try-mutex", "mutex-locked?", "mutex-owner", "call-with-output-string", "open-output-string", "get-output-string", "vector", "vector-ref", "vector-length", "list-ref", "min", "max", "abs", "modulo", "remainder",
+    "current-thread", "try-mutex", "mutex-locked?", "mutex-owner", "call-with-output-string", "open-output-string", "get-output-string", "vector", "vector-ref", "vector-length", "make-vector",
+    "vector-set!", "vector-fill!", "list-ref", "min", "max", "abs", "modulo", "remainder",
 ];
 
 fn builtin_name(name: &str) -> Option<&'static str> {
@@ -451,12 +454,14 @@ impl Runtime {
                 _ => {}
             }
         }
-        {
-            let mut ports = self.ports.lock().unwrap();
-            if let Some(c) = ports[port].capture.as_mut() {
+        if self.ports.lock().unwrap()[port].capture.is_some() {
+            // a string port is shared mutable state like any other: the append is atomic, its
+            // place in the schedule is not
+            self.point();
+            if let Some(c) = self.ports.lock().unwrap()[port].capture.as_mut() {
                 c.push_str(text);
-                return Ok(());
             }
+            return Ok(());
         }
         let chars: Vec<char> = text.chars().collect();
         let ordinal = ctx.writes_of_file;
@@ -1354,14 +1359,46 @@ impl Runtime {
                 let text = self.ports.lock().unwrap()[id].capture.clone().unwrap_or_default();
                 s(&text)
             }
-            "vector" => Ok(Val::List(Arc::new(args))),
-            "vector-ref" | "list-ref" => match (args.first(), args.get(1)) {
+            "vector" => Ok(Val::Vector(Arc::new(StdMutex::new(args)))),
+            "make-vector" => {
+                let n = as_int(args.first().unwrap_or(&Val::Unspec), name)?;
+                if !(0..=1_000_000).contains(&n) {
+                    return runtime("make-vector: bad length");
+                }
+                let fill = args.get(1).cloned().unwrap_or(Val::Unspec);
+                Ok(Val::Vector(Arc::new(StdMutex::new(vec![fill; n as usize]))))
+            }
+            "vector-ref" | "vector-set!" | "vector-length" | "vector-fill!" => {
+                let Some(Val::Vector(v)) = args.first() else { return runtime(format!("{name}: not a vector")) };
+                // shared mutable state: each access is atomic, their order is up to the schedule
+                self.point();
+                let mut vec = v.lock().unwrap();
+                match name {
+                    "vector-length" => Ok(Val::Int(vec.len() as i128)),
+                    "vector-fill!" => {
+                        let fill = args.get(1).cloned().unwrap_or(Val::Unspec);
+                        for x in vec.iter_mut() {
+                            *x = fill.clone();
+                        }
+                        Ok(Val::Unspec)
+                    }
+                    _ => {
+                        let i = as_int(args.get(1).unwrap_or(&Val::Unspec), name)?;
+                        if i < 0 || i as usize >= vec.len() {
+                            return runtime(format!("{name}: index {i} out of range"));
+                        }
+                        if name == "vector-ref" {
+                            Ok(vec[i as usize].clone())
+                        } else {
+                            vec[i as usize] = args.get(2).cloned().unwrap_or(Val::Unspec);
+                            Ok(Val::Unspec)
+                        }
+                    }
+                }
+            }
+            "list-ref" => match (args.first(), args.get(1)) {
                 (Some(Val::List(l)), Some(Val::Int(i))) => l.get(*i as usize).cloned().ok_or(EvalErr::Runtime(format!("{name}: index out of range"))),
                 _ => runtime(format!("{name}: bad arguments")),
-            },
-            "vector-length" => match args.first() {
-                Some(Val::List(l)) => Ok(Val::Int(l.len() as i128)),
-                _ => runtime("vector-length: not a vector"),
             },
             "min" | "max" => {
                 let mut it = args.iter();
